@@ -13,7 +13,7 @@ DEFAULT_GATES = dict(
     loop=True, join_in_loop=False, with_items=True, with_items_in_loop=False, with_items_join=True,
     retry=True, retry_expr=True, retry_cmd=True, retry_when_completed=False, delay=True, delay_expr=True,
     commands=True, cleanup_fail=True, remediate=True, publish=True, conflict_publish=True,
-    republish=True, dict_republish=False, output=True, cond_ctx=True, inputs=True,
+    republish=True, dict_republish=False, output=True, cond_ctx=True, inputs=True, late_var=False,
 )
 
 
@@ -465,6 +465,15 @@ def generate(rng, cfg):
     for n, val in b.extra_vars:
         vars_.append([n, val])
     prog["vars"] = vars_
+    if g.get("late_var") and g["publish"]:
+        # a variable that exists only once some task published it, and an output that reads it:
+        # rendering the output fails until then (e.g. after a fail-fast failure elsewhere) and
+        # succeeds after a late completion
+        cands = [(n, tr) for n, t in b.tasks.items() for tr in t["next"] if "retry" not in tr["do"]]
+        if cands:
+            n, tr = cands[rng.randrange(len(cands))]
+            tr["publish"].append(["lz", ["lit", "late:%s" % n]])
+            prog["output"].append(["o_lz", ["ctx", "lz"]])
     if g["output"]:
         for v in b.vars:
             if rng.random() < 0.8:
@@ -478,6 +487,9 @@ def generate(rng, cfg):
             prog["output"].append(["o_dv", ["ctx", "dv"]])
         if rng.random() < 0.3:
             prog["output"].append(["o_lit", ["lit", "out:lit"]])
+    if g.get("late_var") == "only":
+        # nothing else to render: until `lz` exists the rendering yields no output at all
+        prog["output"] = [o for o in prog["output"] if o[0] == "o_lz"]
     prog["inputs"] = inputs
     return prog
 
